@@ -818,6 +818,11 @@ def resubmit_paths(rep, n, sd, prop="C17"):
                 rep.violation(f"{prop}/jobdir-not-canonical", f"graph #{i}: the job directory is not jobs/<type identifier>/<full identifier>: {x['jobdir']}", {"graph": g})
                 break
         if prop != "C17":
+            # a path generated during sealing is built from the identifier requested at that moment: outside the final
+            # job directory = the identifier was not yet the one the task ends up with
+            if any(v.startswith("OUTSIDE") for v in a.values()):
+                rep.violation(f"{prop}/identifier-during-sealing", f"graph #{i}: a path generated while sealing is not under the final "
+                              f"jobs/<type>/<identifier>: the identifier changed during submission: {a}", {"graph": g})
             continue
         if a != b:
             rep.violation("C17/reproducible", f"graph #{i}: the same configuration submitted again gets other generated paths", {"graph": g})
